@@ -11,6 +11,12 @@ use std::sync::atomic::{AtomicBool, AtomicU64, Ordering::SeqCst};
 use std::sync::{Arc, Mutex};
 use std::time::{Duration, Instant};
 
+/// what the running scenario is doing right now (reported as the failing case when it hangs)
+static NOTE: Mutex<String> = Mutex::new(String::new());
+fn note(s: String) {
+    *NOTE.lock().unwrap() = s;
+}
+
 #[derive(Default)]
 struct Report {
     violations: Vec<(String, String)>, // (properties, description)
@@ -79,6 +85,7 @@ fn hammer(secs: u64, rep: &mut Report) {
         let (mut iters, mut handled_total, mut maxafter, mut pending_confirmed) = (0u64, 0u64, 0u64, 0u64);
         while t0.elapsed() < Duration::from_secs(secs) && rep.violations.len() < 5 {
             iters += 1;
+            note(format!("hammer: iteration {iters} (8 askers, tellers and a stop()/kill() racing on one actor)"));
             let cap = 1 + (iters % 4) as usize;
             let mode = iters % 3; // 0 kill, 1 stop, 2 last drop
             let sh = Arc::new(Sh { clock: AtomicU64::new(1), kill_ret: AtomicBool::new(false), starts_after_kill: AtomicU64::new(0) });
@@ -432,6 +439,7 @@ fn blocking(rep: &mut Report) {
     let mut calls = 0u64;
     // (a) live actor, N plain threads, mixed blocking ops: delivery, per-thread order, reply integrity
     for nthreads in [1u32, 4, 16] {
+        note(format!("blocking (a): {nthreads} plain thread(s) issuing the six blocking forms against a live actor"));
         let log = Arc::new(Mutex::new(vec![]));
         let (r, jh) = rt.block_on(async { spawn_with_mailbox_capacity::<B>((log.clone(), 0), 4) });
         let mut ths = vec![];
@@ -541,6 +549,7 @@ fn blocking(rep: &mut Report) {
     // (b2) one deadline for the whole call: the mailbox frees a slot after part of the budget has been
     //      spent, and the reply (or, for tell, nothing) is then still 1.5 s away
     for name in ["blocking_ask", "blocking_tell"] {
+        note(format!("blocking (b2): {name}(450 ms) with a slot freeing at ~280 ms"));
         let log = Arc::new(Mutex::new(vec![]));
         let (r, jh) = rt.block_on(async { spawn_with_mailbox_capacity::<B>((log.clone(), 300), 1) });
         r.blocking_tell(W(1), None).unwrap(); // in the handler for 300 ms
@@ -748,6 +757,18 @@ fn idlewin(rep: &mut Report) {
         vec![(0, 'd', false)],
         vec![(1, 'c', false), (1, 'e', false)],
         vec![(0, 'c', true), (0, 'c', true), (0, 'e', true)],
+        // a pass that fails without ever suspending: with senders it lands while some of them are parked
+        // on the full mailbox (the freed slot is already promised to one of them)
+        {
+            let mut p = vec![(0, 'c', true); 3];
+            p.extend(vec![(0, 'e', false); 60]);
+            p
+        },
+        {
+            let mut p = vec![(0, 'c', true); 2];
+            p.extend(vec![(0, 'd', false); 60]);
+            p
+        },
     ];
     for multi in [false, true] {
         let rt = if multi {
@@ -765,6 +786,7 @@ fn idlewin(rep: &mut Report) {
                         continue; // self-tells need the room for themselves
                     }
                     cases += 1;
+                    note(format!("idlewin: cap {cap}, {} runtime, {senders} sender task(s), plan (self-tells, outcome, yields first) {:?}", if multi { "multi-thread" } else { "current-thread" }, &plan[..plan.len().min(5)]));
                     let log = Arc::new(Mutex::new(vec![]));
                     let plan2 = plan.clone();
                     let log2 = log.clone();
@@ -780,14 +802,24 @@ fn idlewin(rep: &mut Report) {
                                 }
                             }));
                         }
-                        for t in tasks { let _ = t.await; }
+                        let all_back = tokio::time::timeout(Duration::from_secs(10), async { for t in tasks { let _ = t.await; } }).await.is_ok();
+                        if !all_back {
+                            return (false, Err(()), false);
+                        }
                         tokio::time::sleep(Duration::from_millis(15)).await;
-                        let served = r.ask(K(7)).await.is_ok();
+                        let served = matches!(tokio::time::timeout(Duration::from_secs(10), r.ask(K(7))).await, Ok(Ok(_)));
                         tokio::time::sleep(Duration::from_millis(5)).await;
-                        let _ = r.stop().await;
+                        let _ = tokio::time::timeout(Duration::from_secs(10), r.stop()).await;
                         let out = tokio::time::timeout(Duration::from_secs(10), jh).await;
-                        (served, out.map(|x| x.map(|res| (res.is_completed(), res.is_runtime_failed()))))
+                        (served, out.map(|x| x.map(|res| (res.is_completed(), res.is_runtime_failed()))).map_err(|_| ()), true)
                     });
+                    let (res, senders_back) = ((res.0, res.1), res.2);
+                    if !senders_back {
+                        let l = log.lock().unwrap().clone();
+                        rep.v("C03 C08", format!("idle window (cap {cap}, {} runtime, {senders} senders): tell() calls had not returned 10 s after they were issued (the actor's on_run outcome landed while senders were parked on the full mailbox); plan tail {:?}; log tail {:?}",
+                            if multi { "multi-thread" } else { "current-thread" }, &plan[plan.len().saturating_sub(2)..], &l[l.len().saturating_sub(8)..]));
+                        continue;
+                    }
                     let l = log.lock().unwrap().clone();
                     let what = format!("idle window (cap {cap}, {} runtime, {senders} senders)", if multi { "multi-thread" } else { "current-thread" });
                     match res {
@@ -801,7 +833,7 @@ fn idlewin(rep: &mut Report) {
                                 rep.v("C08 C05", format!("{what}: no on_run error but the actor did not complete; plan {plan:?}"));
                             }
                         }
-                        (_, other) => rep.v("C08", format!("{what}: the actor did not end within 10 s or panicked: {other:?}; plan {plan:?}; log {l:?}")),
+                        (_, other) => rep.v("C08 C03", format!("{what}: the actor did not end within 10 s of stop() (or panicked) and operations on it are left waiting: {other:?}; plan {:?}; log tail {:?}", &plan[..plan.len().min(6)], &l[l.len().saturating_sub(8)..])),
                     }
                 }
             }
@@ -850,6 +882,7 @@ fn lazyfut(rep: &mut Report) {
                         for fill in [false, true] {
                             let mut outs: Vec<(String, u128, Vec<u32>)> = vec![];
                             for variant in 0..3u32 {
+                                note(format!("lazyfut: {op} timeout {timeout} delay {delay} busy {busy} fill {fill} variant {variant}"));
                                 let log = Arc::new(Mutex::new(vec![]));
                                 let (r, jh) = spawn_with_mailbox_capacity::<L>(log.clone(), 1);
                                 r.tell(D(1, busy)).await.unwrap();
@@ -936,15 +969,44 @@ fn main() {
     }
     let mut rep = Report::default();
     for s in &scenarios {
-        match s.as_str() {
-            "hammer" => hammer(secs, &mut rep),
-            "askjoin" => askjoin(&mut rep),
-            "late" => late(&mut rep),
-            "blocking" => blocking(&mut rep),
-            "ids" => ids(&mut rep),
-            "idlewin" => idlewin(&mut rep),
-            "lazyfut" => lazyfut(&mut rep),
+        // every scenario runs on its own thread under a watchdog: code under test that makes a scenario wait
+        // forever must end in a verdict, not in a hung check
+        let (props, budget) = match s.as_str() {
+            "hammer" => ("C01 C02 C03 C06", secs + 180),
+            "askjoin" => ("C03", 180),
+            "late" => ("C01 C10", 120),
+            "blocking" => ("C17 C10 C03", 240),
+            "ids" => ("C11", 120),
+            "idlewin" => ("C08 C03", 900),
+            "lazyfut" => ("C16", 120),
             o => panic!("unknown scenario {o}"),
+        };
+        note(format!("{s}: starting"));
+        let (tx, rx) = std::sync::mpsc::channel();
+        let name = s.clone();
+        std::thread::spawn(move || {
+            let mut r = Report::default();
+            match name.as_str() {
+                "hammer" => hammer(secs, &mut r),
+                "askjoin" => askjoin(&mut r),
+                "late" => late(&mut r),
+                "blocking" => blocking(&mut r),
+                "ids" => ids(&mut r),
+                "idlewin" => idlewin(&mut r),
+                _ => lazyfut(&mut r),
+            }
+            let _ = tx.send(r);
+        });
+        match rx.recv_timeout(Duration::from_secs(budget)) {
+            Ok(r) => {
+                rep.violations.extend(r.violations);
+                rep.stats.extend(r.stats);
+            }
+            Err(_) => {
+                let at = NOTE.lock().unwrap().clone();
+                rep.v(props, format!("scenario `{s}` did not finish within {budget} s: an operation of the crate under test never returned; it was at: {at}"));
+                break;
+            }
         }
     }
     let text = format!(
